@@ -5,6 +5,7 @@ import YV.Drv.C02
 import YV.Drv.C03
 import YV.Drv.Y
 import YV.Drv.T
+import YV.Drv.S
 open Lean YV.Drv
 
 def dispatch (j : Json) : List (String × Json) :=
@@ -16,6 +17,7 @@ def dispatch (j : Json) : List (String × Json) :=
   | "c03" => C03.handle j
   | "yparse" => Y.handle j
   | "ytypes" => T.handle j
+  | "ypath" => S.handlePath j
   | k => [("m", Json.str ("unknown-kind:" ++ k)), ("s", Json.str "unknown-kind")]
 
 partial def loop (hin : IO.FS.Stream) (hout : IO.FS.Stream) : IO Unit := do
